@@ -186,7 +186,7 @@ let () =
   let out = Buffer.create 65536 in
   let flush_out () = output_string moc (Buffer.contents out); Buffer.clear out in
   let emit res = if run_model then begin
-      Buffer.add_string out ("R " ^ res ^ " | " ^ snapshot !w.w_fs ^ "\n"); if Buffer.length out > 60000 then flush_out () end in
+      Buffer.add_string out ("R " ^ res ^ " | " ^ snapshot (fs_files !w.w_fs) ^ "\n"); if Buffer.length out > 60000 then flush_out () end in
   let do_op (o:op) : out = if run_model then (let (w', r) = step' !w o in w := w'; r) else RUnit in
   (* judge state *)
   let js = ref judge_init and jdead = ref false and opidx = ref 0 in
@@ -304,6 +304,8 @@ let () =
       | ["fs_rm"; f] -> simple (OFsRm (file_of_spec f)) KUnit
       | ["fs_write"; f; hex] -> simple (OFsWrite (file_of_spec f, bytes_of_hex hex)) KUnit
       | ["fs_append"; f; hex] -> simple (OFsAppend (file_of_spec f, bytes_of_hex hex)) KUnit
+      | ["fs_cut"; f; k] -> simple (OFsCut (file_of_spec f, n_of_string k)) KUnit
+      | ["fs_patch"; f; k; hex] -> simple (OFsPatch (file_of_spec f, n_of_string k, bytes_of_hex hex)) KUnit
       | ["fs_asset"; _; _] ->
           let dl = match implrec with Some (r, dl) when String.length r >= 4 && String.sub r 0 4 = "R ok" -> Some dl | _ -> None in
           (match !w.w_h, dl with
@@ -313,7 +315,7 @@ let () =
                emit "ok";
                if run_model then
                List.iter (fun (k, c) -> Buffer.add_string out (Printf.sprintf "D %s %s\n" k (hex_of_bytes c)))
-                 (List.sort compare (List.map (fun (k, c) -> (string_of_bytes k, c)) !w.w_fs))
+                 (List.sort compare (List.map (fun (k, c) -> (string_of_bytes k, c)) (fs_files !w.w_fs)))
            | None, None -> emit "err NoFile");
           (match dl with
            | Some dl when have_impl ->
@@ -323,7 +325,7 @@ let () =
           emit "ok";
           if run_model then
           List.iter (fun (k, c) -> Buffer.add_string out (Printf.sprintf "D %s %s\n" k (hex_of_bytes c)))
-            (List.sort compare (List.map (fun (k, c) -> (string_of_bytes k, c)) !w.w_fs));
+            (List.sort compare (List.map (fun (k, c) -> (string_of_bytes k, c)) (fs_files !w.w_fs)));
           if have_impl then jfiles isnap
       | _ -> prerr_endline ("syntax error: " ^ l); exit 2
     end
